@@ -24,6 +24,7 @@ require (
 	github.com/piprate/json-gold v0.5.1-0.20230111113000-6ddbe6e6f19f
 	golang.org/x/crypto v0.1.0
 	google.golang.org/protobuf v1.28.1
+	nhooyr.io/websocket v1.8.3
 )
 
 require (
@@ -69,7 +70,6 @@ require (
 	golang.org/x/exp v0.0.0-20230728194245-b0cb94b80691 // indirect
 	golang.org/x/sys v0.2.0 // indirect
 	gopkg.in/yaml.v3 v3.0.1 // indirect
-	nhooyr.io/websocket v1.8.3 // indirect
 	rsc.io/tmplfunc v0.0.3 // indirect
 )
 
